@@ -189,14 +189,14 @@ func (c *Collection) BulkWrite(ctx context.Context, models []mongo.WriteModel, o
 			result.ModifiedCount += int64(len(res.Modified))
 			if res.Upserted != nil {
 				result.UpsertedCount++
-				result.UpsertedIDs[int64(i)] = bsonkit.Get(res.Upserted, "_id")
+				result.UpsertedIDs[int64(i)] = detachValue(bsonkit.Get(res.Upserted, "_id"))
 			}
 		case Update:
 			result.MatchedCount += int64(len(res.Matched))
 			result.ModifiedCount += int64(len(res.Modified))
 			if res.Upserted != nil {
 				result.UpsertedCount++
-				result.UpsertedIDs[int64(i)] = bsonkit.Get(res.Upserted, "_id")
+				result.UpsertedIDs[int64(i)] = detachValue(bsonkit.Get(res.Upserted, "_id"))
 			}
 		case Delete:
 			result.DeletedCount += int64(len(res.Matched))
@@ -405,6 +405,9 @@ func (c *Collection) Distinct(ctx context.Context, field string, filter interfac
 
 	// collect distinct values
 	values := mongokit.Distinct(list, field)
+
+	// hand out copies: the values are taken from stored documents
+	values = detachValue(values).(bson.A)
 
 	return values, nil
 }
@@ -972,7 +975,7 @@ func (c *Collection) InsertMany(ctx context.Context, documents []interface{}, op
 	result := res.(*Result)
 
 	return &mongo.InsertManyResult{
-		InsertedIDs: bsonkit.Pick(result.Modified, "_id", false),
+		InsertedIDs: detachValue(bsonkit.Pick(result.Modified, "_id", false)).(bson.A),
 	}, result.Error
 }
 
@@ -1020,7 +1023,7 @@ func (c *Collection) InsertOne(ctx context.Context, document interface{}, opts .
 	}
 
 	return &mongo.InsertOneResult{
-		InsertedID: bsonkit.Get(result.Modified[0], "_id"),
+		InsertedID: detachValue(bsonkit.Get(result.Modified[0], "_id")),
 	}, nil
 }
 
@@ -1089,7 +1092,7 @@ func (c *Collection) ReplaceOne(ctx context.Context, filter, replacement interfa
 	if result.Upserted != nil {
 		return &mongo.UpdateResult{
 			UpsertedCount: 1,
-			UpsertedID:    bsonkit.Get(result.Upserted, "_id"),
+			UpsertedID:    detachValue(bsonkit.Get(result.Upserted, "_id")),
 		}, nil
 	}
 
@@ -1179,7 +1182,7 @@ func (c *Collection) UpdateMany(ctx context.Context, filter, update interface{},
 	if result.Upserted != nil {
 		return &mongo.UpdateResult{
 			UpsertedCount: 1,
-			UpsertedID:    bsonkit.Get(result.Upserted, "_id"),
+			UpsertedID:    detachValue(bsonkit.Get(result.Upserted, "_id")),
 		}, nil
 	}
 
@@ -1254,7 +1257,7 @@ func (c *Collection) UpdateOne(ctx context.Context, filter, update interface{}, 
 	if result.Upserted != nil {
 		return &mongo.UpdateResult{
 			UpsertedCount: 1,
-			UpsertedID:    bsonkit.Get(result.Upserted, "_id"),
+			UpsertedID:    detachValue(bsonkit.Get(result.Upserted, "_id")),
 		}, nil
 	}
 
